@@ -582,6 +582,8 @@ func (a *AddrManager) nextAddresses(dbTransaction db.DBTransaction, checkfunc fu
 }
 
 func (a *AddrManager) updateManagedAddress(dbTransaction db.DBTransaction, managedAddresses []*ManagedAddress) error {
+	a.mu.Lock()
+	defer a.mu.Unlock()
 	for _, managedAddress := range managedAddresses {
 		a.addrs[managedAddress.address] = managedAddress
 		a.index[addrIndexKey{managedAddress.derivationPath.Branch, managedAddress.derivationPath.Index}] = managedAddress.address
